@@ -23,6 +23,9 @@ type D struct {
 	S    []byte
 	KVs  []DKV
 	Elts []*D
+	// Go: which of the Go shapes of this value the untyped tree holds (0 = the plain one); the
+	// logical value — and what the model is told — is the same for all of them (see Any)
+	Go int
 }
 
 type DKV struct {
@@ -279,36 +282,154 @@ func (d *D) ROR2(query bool, shuffle *rand.Rand) (string, bool) {
 	panic("bad doc kind")
 }
 
-// Any renders the document as the untyped Go value tree the interface reader consumes.
+type namedString string
+type namedMap map[string]any
+
+// Any renders the document as the untyped Go value tree the interface reader consumes. A value
+// has several Go shapes that the reader must treat alike (d.Go picks one): integers of every
+// signed kind, strings as string / []byte / a named string type, a pointer to the value (one
+// level is dereferenced), empty collections as nil slices and nil maps, slices and maps with a
+// concrete element type. "other" is anything the reader supports nowhere, including what is left
+// after ONE dereference of a pointer to a nil pointer or to a nil interface.
 func (d *D) Any() any {
 	switch d.K {
 	case "null":
 		return nil
 	case "other":
-		// a kind the reader supports nowhere
+		var nilIntPtr *int
+		var nilMapPtr *map[string]any
+		var nilAny any
+		var nilSlicePtr *[]any
+		switch d.Go % 9 {
+		case 1:
+			return struct{}{}
+		case 2:
+			return &nilIntPtr
+		case 3:
+			return &nilAny
+		case 4:
+			return &nilMapPtr
+		case 5:
+			return (*int)(nil)
+		case 6:
+			return map[int]any{1: 2}
+		case 7:
+			return &nilSlicePtr
+		case 8:
+			return uint64(1 << 40)
+		}
 		return uint16(7)
 	case "int":
+		switch d.Go % 5 {
+		case 1:
+			return int(d.I)
+		case 2:
+			if int64(int32(d.I)) == d.I {
+				return int32(d.I)
+			}
+		case 3:
+			if int64(int8(d.I)) == d.I {
+				return int8(d.I)
+			}
+		case 4:
+			v := d.I
+			return &v
+		}
 		return d.I
 	case "float":
+		switch d.Go % 3 {
+		case 1:
+			if f32 := float32(d.F); float64(f32) == d.F {
+				return f32
+			}
+		case 2:
+			v := d.F
+			return &v
+		}
 		return d.F
 	case "bool":
+		if d.Go%2 == 1 {
+			v := d.B
+			return &v
+		}
 		return d.B
 	case "str":
+		switch d.Go % 4 {
+		case 1:
+			return append([]byte{}, d.S...)
+		case 2:
+			return namedString(d.S)
+		case 3:
+			v := string(d.S)
+			return &v
+		}
 		return string(d.S)
 	case "bytes":
+		if d.Go%2 == 1 && len(d.S) == 0 {
+			return []byte(nil)
+		}
 		return append([]byte{}, d.S...)
 	case "arr":
+		if d.Go%4 == 1 && len(d.Elts) == 0 {
+			return []any(nil)
+		}
+		if d.Go%4 == 2 {
+			allInt, allStr := len(d.Elts) > 0, len(d.Elts) > 0
+			for _, e := range d.Elts {
+				allInt = allInt && e.K == "int"
+				allStr = allStr && e.K == "str"
+			}
+			if allInt {
+				out := make([]int64, len(d.Elts))
+				for i, e := range d.Elts {
+					out[i] = e.I
+				}
+				return out
+			}
+			if allStr {
+				out := make([]string, len(d.Elts))
+				for i, e := range d.Elts {
+					out[i] = string(e.S)
+				}
+				return out
+			}
+		}
 		out := make([]any, len(d.Elts))
 		for i, e := range d.Elts {
 			out[i] = e.Any()
 		}
+		if d.Go%4 == 3 {
+			return &out
+		}
 		return out
 	default:
+		if d.Go%4 == 1 && len(d.KVs) == 0 {
+			return map[string]any(nil)
+		}
 		out := map[string]any{}
 		for _, e := range d.KVs {
 			out[e.K] = e.V.Any()
 		}
+		switch d.Go % 4 {
+		case 2:
+			return namedMap(out)
+		case 3:
+			return &out
+		}
 		return out
+	}
+}
+
+// goShapes gives a share of the nodes of the document another Go shape (in place)
+func goShapes(d *D, pick func(n int) int) {
+	if pick(3) == 0 {
+		d.Go = 1 + pick(8)
+	}
+	for i := range d.KVs {
+		goShapes(d.KVs[i].V, pick)
+	}
+	for _, e := range d.Elts {
+		goShapes(e, pick)
 	}
 }
 
